@@ -306,10 +306,7 @@ Theorem C07_take_drop_le :
     /\ (numbers_sorted recs ->
           take_le recs number = filter (fun rr => rr_number rr <=? number) recs
           /\ drop_le recs number = filter (fun rr => number <? rr_number rr) recs).
-Proof.
-  intros recs number. split; [apply take_drop_le|]. split; [apply take_le_all|].
-  split; [apply drop_le_head|apply take_le_filter].
-Qed.
+Proof. exact take_drop_le_all. Qed.
 Print Assumptions C07_take_drop_le.
 
 Theorem C07_acc_no_snap :
